@@ -178,7 +178,8 @@ func c03Dump(step int, s c03State) []Stmt {
 		}
 		return Print{Args: args}
 	}
-	return []Stmt{d("v", len(s.objs[s.v])), d("w", len(s.objs[s.w]))}
+	lens := Print{Args: []Expr{StrLit{V: fmt.Sprintf("s%d lens", step)}, Len{X: Var{"v"}}, Len{X: Var{"w"}}, Binary{Op: "==", L: Len{X: Var{"v"}}, R: Len{X: Var{"w"}}}, Binary{Op: "-", L: Len{X: Var{"v"}}, R: Len{X: Var{"w"}}}}}
+	return []Stmt{d("v", len(s.objs[s.v])), d("w", len(s.objs[s.w])), lens}
 }
 
 func c03HistoryProg(hist []int, ops []c03Op, el c03Elem) (*Prog, c03State) {
